@@ -457,7 +457,7 @@ fn value_for_struct_props(
             }
 
             let flat_value = type_entry.output_value(type_space, &extra_value, scope)?;
-            let name = &prop.name;
+            let name = format_ident!("{}", &prop.name);
             Some(quote! { #name: #flat_value })
         }
         _ => None,
